@@ -18,7 +18,9 @@
 #include "tlwe_functions.h"
 #include "tgsw_functions.h"
 #include "numeric_functions.h"
+#include <pthread.h>
 #include "guard_new.h"
+static int g_stack_kib = 0;
 static int g_guard = 0;   // op "guard 1": ciphertexts and temporaries of gatecase/netlist/tgsw/boot end at inaccessible pages (keys stay on the ordinary heap)
 
 typedef long long ll;
@@ -294,6 +296,8 @@ static void op_gatecase(const V &a, V &r) {
     vguard::Scope gs(g_guard);
     LweSample *in = new_gate_bootstrapping_ciphertext_array(4, P);
     for (int q = 0; q < 3; q++) { for (int i = 0; i < n; i++) in[q].a[i] = (int32_t) v[(size_t) q * (n + 1) + i]; in[q].b = (int32_t) v[(size_t) q * (n + 1) + n]; }
+    // variance annotations are bookkeeping: zero (as the constructor leaves them) or not, by the parity of the body - the ciphertext computed must not depend on them
+    for (int q = 0; q < 3; q++) if (in[q].b & 1) in[q].current_variance = ldexp(1., -20 - q);
     // alias 7: the gate runs under an FFT-only cloud key (bk = NULL) derived through the lower-level API; the LweBootstrappingKey it was
     // converted from has been refilled for other secrets and deleted
     static std::string fo_spec; static TFheGateBootstrappingCloudKeySet *fo_ck = 0; static LweBootstrappingKeyFFT *fo_bf = 0;
@@ -402,7 +406,17 @@ int main() {
         else if (op == "ksbias") op_ksbias(a, r);
         else if (op == "guard") { g_guard = a.empty() ? 0 : (int) a[0]; r.push_back(1); r.push_back(vguard::served); }
         else if (op == "fullcase") op_fullcase(a, r);
-        else if (op == "gatecase") op_gatecase(a, r);
+        else if (op == "stack") { g_stack_kib = a.empty() ? 0 : (int) a[0]; r.push_back(1); }
+        else if (op == "gatecase") {
+            if (!g_stack_kib) op_gatecase(a, r);
+            else {   // the gate evaluated on a thread with a small stack (worker threads of pools, fibres); keys are made here first, on the main thread
+                need_keys(a);
+                struct J { const V *a; V *r; } j = { &a, &r };
+                pthread_attr_t at; pthread_attr_init(&at); pthread_attr_setstacksize(&at, (size_t) g_stack_kib * 1024); pthread_attr_setguardsize(&at, 65536);
+                pthread_t th; if (pthread_create(&th, &at, [](void *p) -> void * { J *q = (J *) p; op_gatecase(*q->a, *q->r); return 0; }, &j)) abort();
+                pthread_join(th, 0); pthread_attr_destroy(&at);
+            }
+        }
         else if (op == "encdec") op_encdec(a, r);
         else if (op == "netlist") op_netlist(a, r);
         else if (op == "xmul") op_xmul(a, r);
